@@ -154,10 +154,10 @@ Inductive mobs :=
 
 Definition main_agrees (r : mainres) (o : mobs) : bool :=
   match r, o with
-  | MFail e, MObsFail x c => (x =? (if e =? E_USAGE then 2 else 1)) && (c =? e)
-  (* a refusal whose message the harness does not know: exit status 1, unclassified *)
-  | MFail e, MObsList (LObsErr c) => negb (e =? E_USAGE) && (c =? E_UNKNOWN)
-  | MFail e, MObsRun (ObsErr c) => negb (e =? E_USAGE) && (c =? E_UNKNOWN)
+  (* the exit status tells a usage error (2) from a refusal (1); the wording of a refusal is not pinned *)
+  | MFail e, MObsFail x _ => x =? (if e =? E_USAGE then 2 else 1)
+  | MFail e, MObsList (LObsErr _) => negb (e =? E_USAGE)
+  | MFail e, MObsRun (ObsErr _) => negb (e =? E_USAGE)
   | MList cr, MObsList l => list_agrees_c cr l
   | MRun v, MObsRun ob => run_agrees v ob
   | _, _ => false
